@@ -128,7 +128,7 @@ class Module:
         self.text = text
         try:
             self.tree = ast.parse(text, filename=path)
-        except SyntaxError as err:
+        except (SyntaxError, ValueError) as err:
             raise AnalysisError('parse-failure %s: %s' % (path, err))
         self.is_pkg = path.endswith('__init__.py')
         self.imports = {}
@@ -173,7 +173,7 @@ def walk_local(node, include_root=True):
 
 
 class Program:
-    def __init__(self, sources, templates=None):
+    def __init__(self, sources, templates=None, normalise=True):
         self.sources = sources
         self.templates = templates if templates is not None else {}
         self.modules = {}
@@ -185,6 +185,14 @@ class Program:
             m = Module(path, sources[path])
             self.modules[path] = m
             self.by_name[m.name] = m
+        # helpers that are not part of the reference census are inlined
+        # into their callers, so that the rules see through an extracted
+        # (or newly added) private function: sa/inline.py
+        self.inlined = []
+        if normalise:
+            from . import inline
+            self.inlined = inline.normalise(
+                {p: m.tree for p, m in self.modules.items()})
         for m in self.modules.values():
             self._index_module(m)
         for c in self.classes.values():
